@@ -132,7 +132,7 @@ def ext_new(pid):
 def owned(pid):
     lo = pid.lower()
     return ["lean/TbbVerif/Model/%s*" % pid, "lean/TbbVerif/Proofs/%s*" % pid, "lean/TbbVerif/Props/%s.lean" % pid,
-            "lean/TbbVerif/Generated/%s*" % pid, "lean/Driver/%s.lean" % pid, "checks/%s*.py" % lo, "harness/%s/" % lo]
+            "lean/TbbVerif/Generated/%s*" % pid, "lean/Driver/%s*.lean" % pid, "checks/%s*.py" % lo, "harness/%s/" % lo]
 
 
 def ext_pull(pid):
